@@ -33,15 +33,28 @@ func (pass *DisjunctionWithNullToOptional) Process(schemas []*ast.Schema) ([]*as
 	return visitor.VisitSchemas(schemas)
 }
 
-func (pass *DisjunctionWithNullToOptional) processDisjunction(_ *Visitor, _ *ast.Schema, def ast.Type) (ast.Type, error) {
+func (pass *DisjunctionWithNullToOptional) processDisjunction(visitor *Visitor, schema *ast.Schema, def ast.Type) (ast.Type, error) {
 	disjunction := def.AsDisjunction()
 
 	if len(disjunction.Branches) != 2 || !disjunction.Branches.HasNullType() {
+		// the disjunction stays, but its branches can hold `type | null` disjunctions too
+		for i, branch := range disjunction.Branches {
+			processedBranch, err := visitor.VisitType(schema, branch)
+			if err != nil {
+				return ast.Type{}, err
+			}
+
+			disjunction.Branches[i] = processedBranch
+		}
+
 		return def, nil
 	}
 
 	// type | null
-	finalType := disjunction.Branches.NonNullTypes()[0]
+	finalType, err := visitor.VisitType(schema, disjunction.Branches.NonNullTypes()[0])
+	if err != nil {
+		return ast.Type{}, err
+	}
 	finalType.Nullable = true
 	finalType.AddToPassesTrail(fmt.Sprintf("DisjunctionWithNullToOptional[%[1]s|null → %[1]s?]", ast.TypeName(finalType)))
 
